@@ -419,21 +419,23 @@ func perField(r *vkit.R, a *admitter) {
 		if !ok {
 			return
 		}
-		n := 0
+		n, changed, matched := 0, 0, 0
+		var hs []uint64
 		for k, sl := range slots {
 			raw, stored := &uc.Spec.DispatchPolicies[0].Rules[k], &st.Spec.DispatchPolicies[0].Rules[k]
 			if storedForm(raw) != storedForm(stored) {
-				r.Count("rules_changed_by_admit", 1)
+				changed++
 			}
+			slotHash := vkit.Hash64("field", sl.field, key, fmt.Sprint(sl.sas))
 			for pi := range probes[sl.field] {
 				q := probes[sl.field][pi]
 				rm, sm := clusters.RuleMatches(attrs(&q), raw), clusters.RuleMatches(attrs(&q), stored)
 				n++
 				if nt {
-					r.Distinct(vkit.Hash64("field", sl.field, key, fmt.Sprint(sl.sas), fmt.Sprint(pi)))
+					hs = append(hs, vkit.Mix64(slotHash, uint64(pi)))
 				}
 				if rm {
-					r.Count("field_probe_matched", 1)
+					matched++
 				}
 				if rm != sm {
 					sig := fmt.Sprintf("C17/match/%s/%s", divergence(raw, stored, &q), direction(rm, sm))
@@ -445,6 +447,9 @@ func perField(r *vkit.R, a *admitter) {
 		}
 		r.Eval(n)
 		r.Count("field_probe_cases", n)
+		r.Count("field_probe_matched", matched)
+		r.Count("rules_changed_by_admit", changed)
+		r.DistinctBatch(hs)
 		idempotence(r, a, st, "per-field")
 		if i == 700 || i == 1500 {
 			r.Sample(map[string]interface{}{"kind": "per-field", "list": l, "storedVerbs": st.Spec.DispatchPolicies[0].Rules[0].Verbs})
@@ -524,8 +529,8 @@ func idempotence(r *vkit.R, a *admitter, st *proxyv1alpha1.UpstreamCluster, clas
 				r.Violation("C17/idempotence/rule-count-changed", "second Admit changed the number of rules", map[string]interface{}{"once": st, "twice": st2})
 				return
 			}
+			r.Count("idempotence_cases", len(p1.Rules))
 			for j := range p1.Rules {
-				r.Count("idempotence_cases", 1)
 				if storedForm(&p1.Rules[j]) == storedForm(&p2.Rules[j]) {
 					continue
 				}
@@ -760,29 +765,44 @@ func wholeRules(r *vkit.R, a *admitter) {
 			return
 		}
 		r.Count("rules_admitted_"+class, nRules)
+		changed := 0
+		full := r.DistinctFull()
+		var ruleHash [][]uint64 // 0 = trivial rule (not counted as distinct)
 		for pi := range uc.Spec.DispatchPolicies {
+			ruleHash = append(ruleHash, make([]uint64, len(uc.Spec.DispatchPolicies[pi].Rules)))
 			for ri := range uc.Spec.DispatchPolicies[pi].Rules {
-				if storedForm(&uc.Spec.DispatchPolicies[pi].Rules[ri]) != storedForm(&st.Spec.DispatchPolicies[pi].Rules[ri]) {
-					r.Count("rules_changed_by_admit", 1)
+				raw := &uc.Spec.DispatchPolicies[pi].Rules[ri]
+				sf := storedForm(raw)
+				if sf != storedForm(&st.Spec.DispatchPolicies[pi].Rules[ri]) {
+					changed++
+				}
+				if !full && ruleNontrivial(raw) {
+					ruleHash[pi][ri] = vkit.Hash64("rule", sf) | 1
 				}
 			}
 		}
-		n := 0
+		r.Count("rules_changed_by_admit", changed)
+		n, matched, unmatched := 0, 0, 0
+		var hs []uint64
 		for k := 0; k < nProbes; k++ {
 			q := genProbe(g, pl)
 			at := attrs(q)
+			var qh uint64
+			if !full {
+				qh = vkit.Hash64(q.Verb, q.Group, q.Resource, q.Sub, q.Name, q.Path, q.User, strings.Join(q.Groups, "\x01"), fmt.Sprint(q.IsResource))
+			}
 			for pi := range uc.Spec.DispatchPolicies {
 				for ri := range uc.Spec.DispatchPolicies[pi].Rules {
 					raw, stored := &uc.Spec.DispatchPolicies[pi].Rules[ri], &st.Spec.DispatchPolicies[pi].Rules[ri]
 					rm, sm := clusters.RuleMatches(at, raw), clusters.RuleMatches(at, stored)
 					n++
-					if ruleNontrivial(raw) {
-						r.Distinct(vkit.Hash64("rule", storedForm(raw), fmt.Sprintf("%+v", *q)))
+					if ruleHash[pi][ri] != 0 {
+						hs = append(hs, vkit.Mix64(ruleHash[pi][ri], qh))
 					}
 					if rm {
-						r.Count("rule_probe_matched", 1)
+						matched++
 					} else {
-						r.Count("rule_probe_unmatched", 1)
+						unmatched++
 					}
 					if rm != sm {
 						sig := fmt.Sprintf("C17/match/%s/%s", divergence(raw, stored, q), direction(rm, sm))
@@ -794,7 +814,6 @@ func wholeRules(r *vkit.R, a *admitter) {
 			}
 			// routing: the policy chosen for the request must be the same one
 			pr, ps := policyIndex(clusters.MatchPolicies(at, uc.Spec.DispatchPolicies)), policyIndex(clusters.MatchPolicies(at, st.Spec.DispatchPolicies))
-			r.Count("policy_probe_cases", 1)
 			if pr != ps {
 				r.Violation("C17/routing/chosen-policy-differs", fmt.Sprintf("request %+v is routed by policy %d of the submitted object but by policy %d of the stored one; submitted %s stored %s",
 					*q, pr, ps, mustJSON(uc.Spec.DispatchPolicies), mustJSON(st.Spec.DispatchPolicies)),
@@ -803,6 +822,10 @@ func wholeRules(r *vkit.R, a *admitter) {
 		}
 		r.Eval(n)
 		r.Count("rule_probe_cases", n)
+		r.Count("rule_probe_matched", matched)
+		r.Count("rule_probe_unmatched", unmatched)
+		r.Count("policy_probe_cases", nProbes)
+		r.DistinctBatch(hs)
 		idempotence(r, a, st, class)
 		if i < 2 {
 			r.Sample(map[string]interface{}{"kind": "whole-rule", "operation": class, "submitted": uc.Spec.DispatchPolicies[0].Rules[0], "stored": st.Spec.DispatchPolicies[0].Rules[0], "probe": genProbe(g, pl)})
